@@ -763,6 +763,8 @@ class MInplace(e1.Op):
             args["n"] = rng.randrange(N)
         if kind in ("truncate_bind", "diagonalize_bind"):
             args["opts"] = rng.choice([{"D_total": rng.randint(1, 3)}, {"D_total": rng.randint(1, 4), "tol": 1e-14}, {"tol": rng.choice([0.05, 0.2, 0.5])},
+                                       # both global limits at once: at some cuts the one binds, at others the other
+                                       {"D_total": rng.randint(2, 6), "tol": rng.choice([0.05, 0.2, 0.5])}, {"D_total": rng.randint(2, 8), "tol": rng.choice([0.1, 0.3])},
                                        {"D_block": 1}, {"D_total": 2, "tol_block": 0.3},
                                        # options meant for the partial-SVD policies are legal in opts_svd: the truncation must stay honest
                                        {"policy": "lowrank", "D_block": rng.randint(1, 2)}, {"policy": "block_arnoldi", "D_block": 1, "D_total": 3}])
@@ -853,6 +855,36 @@ class MInplace(e1.Op):
                     if abs(dist - d * nr) > 1e-8 * max(1.0, nr):
                         raise V(prop, "discarded-weight", "%s: |psi - psi_t| = %.12g, d |psi| = %.12g" % (what, dist, d * nr))
                 w.stats["binding_truncations"] += 1
+                # reference model of the sweep for the global limits (D_total, tol): kept dimensions at every cut and the truncated state itself
+                opts = ar.get("opts", {})
+                if set(opts) <= {"D_total", "tol"} and psi.pC is None and task.N >= 2 and (psi.nr_phys == 1 or len(set(np.asarray(self._before).shape)) == 1):
+                    ms, kept, ranks, amb = model_truncation_sweep(self._before, task.N, psi.nr_phys == 2, ar["to"], opts.get("D_total"), opts.get("tol"))
+                    if ms is not None and not amb:
+                        bd = psi.get_bond_dimensions()
+                        # upper bound: what the limits keep at the moment the cut is truncated; lower bound: the Schmidt rank of the FINAL model state at
+                        # that cut (a later truncation may remove a whole charge sector from an earlier bond, which the library then drops)
+                        am = np.asarray(ms)
+                        if psi.nr_phys == 2:
+                            am = np.transpose(am, [x for i in range(task.N) for x in (i, task.N + i)])
+                            am = am.reshape([am.shape[2 * i] * am.shape[2 * i + 1] for i in range(task.N)])
+                        for c, kk in kept.items():
+                            got = bd[c + 1]
+                            sv = np.linalg.svd(am.reshape(int(np.prod(am.shape[:c + 1])), -1), compute_uv=False)
+                            rfin = int(np.sum(sv > 1e-9 * sv[0])) if sv.size and sv[0] > 0 else 0
+                            if not (rfin <= got <= max(kk, rfin)):
+                                raise V(prop, "truncation-limits", "%s: bond %d-%d has dimension %d after the sweep; the limits %s applied to the Schmidt values of that cut keep %d "
+                                        "(rank of that cut in the truncated state: %d)" % (what, c, c + 1, got, opts, kk, rfin))
+                        vm = ms.reshape(-1)
+                        nm = float(np.linalg.norm(vm))
+                        if nm > 0 and nn > 0:
+                            dev = float(np.linalg.norm(vn / nn - vm / nm * (np.vdot(vm, vn) / abs(np.vdot(vm, vn)) if abs(np.vdot(vm, vn)) > 0 else 1)))
+                            if dev > 1e-7:
+                                raise V(prop, "truncated-state", "%s: the truncated state differs from the sequential Schmidt truncation of the dense state (direction %s) by %.3e" % (what, ar["to"], dev))
+                            if not ar["normalize"] and abs(nn - nm) > 1e-8 * max(1.0, nm):
+                                raise V(prop, "truncated-state", "%s: norm after the sweep %.12g, model %.12g" % (what, nn, nm))
+                        w.stats["truncation_sweeps_vs_model"] += 1
+                    elif amb:
+                        w.probes["truncation_model_ambiguous_tie"] += 1
         task.shadows[slot] = new
         # structural oracles after the op
         if k == "canonize_" and psi.pC is None:
@@ -860,6 +892,44 @@ class MInplace(e1.Op):
                 raise V(prop, "canonical", "%s: is_canonical(to=%s) is False after canonize_" % (what, ar["to"]))
             check_isometries(task, psi, ar["to"], prop, what)
         return []
+
+
+def model_truncation_sweep(arr, N, mpo, to, D_total, tol):
+    """Reference model of truncate_ for the global limits D_total / tol: sequential Schmidt truncation of the dense state, cut by cut in sweep order.
+    Returns (dense state in the layout of arr, kept dimension per cut, numerical rank per cut, ambiguous)."""
+    a = np.asarray(arr)
+    if mpo:
+        perm = [x for i in range(N) for x in (i, N + i)]
+        a = np.transpose(a, perm)
+        a = a.reshape([a.shape[2 * i] * a.shape[2 * i + 1] for i in range(N)])
+    dims = list(a.shape)
+    cuts = list(range(N - 1)) if to == "last" else list(range(N - 2, -1, -1))
+    kept, ranks, ambiguous = {}, {}, False
+    for c in cuts:
+        M = a.reshape(int(np.prod(dims[:c + 1])), -1)
+        U, S, Vh = np.linalg.svd(M, full_matrices=False)
+        if S.size == 0 or S[0] == 0:
+            return None, None, None, True
+        r = int(np.sum(S > 1e-10 * S[0]))
+        k = len(S)
+        if tol:
+            k = int(np.sum(S > tol * S[0]))
+            if np.any(np.abs(S / S[0] - tol) < 1e-7):
+                ambiguous = True
+        if D_total is not None:
+            k = min(k, D_total)
+        k = max(k, 1) if not tol else k
+        if 0 < k < len(S) and S[k] > 1e-10 * S[0] and (S[k - 1] - S[k]) < 1e-7 * S[0]:
+            ambiguous = True           # a tie at the boundary: which of the equal values is kept is the library's freedom
+        if k == 0:
+            return None, None, None, True
+        kept[c], ranks[c] = k, r
+        a = ((U[:, :k] * S[:k]) @ Vh[:k]).reshape(dims)
+    if mpo:
+        d2 = [int(round(np.sqrt(x))) for x in dims]
+        a = a.reshape([x for d in d2 for x in (d, d)])
+        a = np.transpose(a, [2 * i for i in range(N)] + [2 * i + 1 for i in range(N)])
+    return a.reshape(np.asarray(arr).shape), kept, ranks, ambiguous
 
 
 def check_isometries(task, psi, to, prop, what):
